@@ -94,7 +94,7 @@ def random_model(r):
             body.append(['jump', r.choice(labels), None])
         elif c < 0.7:
             body.append(['jump', r.choice(labels), ['bin', r.choice(['<', '>', '==']), ['var', r.choice(['x', 'y'])], num(r.randint(0, 4))]]
-                        if r.random() < 0.85 else ['jump', r.choice(labels), ['var', r.choice(['eo', 'x', 'y'])]])
+                        if r.random() < 0.85 else ['jump', r.choice(labels), ['var', r.choice(['eo', 'x', 'y', 'nn', 'nn'])]])
         elif c < 0.88:
             body.append(['label', r.choice(labels)])
         elif c < 0.93:
@@ -148,7 +148,7 @@ def canon_num(v):
 
 
 def ref_run(model, mx):
-    g = {'x': 0.0, 'y': None, 'eo': {}}
+    g = {'x': 0.0, 'y': None, 'eo': {}, 'nn': float('nan')}      # (NaN is a number that is not 0: truthy)
     for name in ('systemLog',):
         g[name] = refinterp.LibFn(name)
     ref = refinterp.Ref(g, mx, 'jump')
@@ -189,7 +189,7 @@ def same(a, b):
     if isinstance(a, bool) or isinstance(b, bool):
         return isinstance(a, bool) and isinstance(b, bool) and a == b
     if isinstance(a, (int, float)) and isinstance(b, (int, float)):
-        return float(a) == float(b)
+        return float(a) == float(b) or (a != a and b != b)          # (NaN is the same value as NaN here)
     if isinstance(a, list) and isinstance(b, list):
         return len(a) == len(b) and all(same(x, y) for x, y in zip(a, b))
     if isinstance(a, dict) and isinstance(b, dict):
@@ -220,7 +220,7 @@ def run(tier):
     for _ in range(40):
         models.append(('nested-fn', nested_fn_model(r)))
 
-    cases = [{'model': m, 'globals': {'x': interp.vflt(0.0), 'y': ['null'], 'eo': ['obj', 1, []]}, 'max': mx, 'twice': True, 'rerun_same_options': True} for _, m in models]
+    cases = [{'model': m, 'globals': {'x': interp.vflt(0.0), 'y': ['null'], 'eo': ['obj', 1, []], 'nn': ['flt', 'nan']}, 'max': mx, 'twice': True, 'rerun_same_options': True} for _, m in models]
     impl = core.run_impl('run_script', cases)
 
     dist = {}
